@@ -1,5 +1,6 @@
 mod body;
 mod common;
+mod emb;
 mod alloc;
 mod asyncm;
 mod fes;
